@@ -317,6 +317,7 @@ type Tree struct {
 	inline, _switch, Ast bool
 	Strict               bool
 	werr                 error
+	undefined            map[string]bool
 
 	Generator       string
 	RuleNames       []*node
@@ -342,6 +343,7 @@ func New(inline, _switch, noast bool) *Tree {
 	return &Tree{
 		Rules:      make(map[string]*node),
 		rulesCount: make(map[string]uint),
+		undefined:  make(map[string]bool),
 		inline:     inline,
 		_switch:    _switch,
 		Ast:        !noast,
@@ -576,6 +578,7 @@ func (t *Tree) link(countsForRule *[TypeLast]uint, n *node, counts *[TypeLast]ui
 
 			t.Rules[name] = emptyRule
 			t.RuleNames = append(t.RuleNames, emptyRule)
+			t.undefined[name] = true
 			*countsByRule = append(*countsByRule, &[TypeLast]uint{})
 		}
 	case TypePush:
@@ -1254,7 +1257,7 @@ func (t *Tree) Compile(file string, args []string, out io.Writer) (err error) {
 			continue
 		}
 		expression := element.Front()
-		if expression.GetType() == TypeNil {
+		if expression.GetType() == TypeNil || t.undefined[element.String()] {
 			continue
 		}
 		ko := label
@@ -1295,8 +1298,10 @@ func (t *Tree) Compile(file string, args []string, out io.Writer) (err error) {
 			continue
 		}
 		expression := element.Front()
-		if implicit := expression.Front(); expression.GetType() == TypeNil || implicit.GetType() == TypeNil {
-			if element.String() != "PegText" {
+		if expression.GetType() == TypeNil || t.undefined[element.String()] {
+			/* the PegText placeholder, or the stub link made for an undefined name
+			   (a rule with an empty body is a definition) */
+			if t.undefined[element.String()] {
 				t.warn(fmt.Errorf("rule '%v' used but not defined", element))
 			}
 			_print("\n  nil,")
